@@ -8,10 +8,19 @@ def run(ctx):
                    expect_violations=("CoarseIsPrevious",), coverage=False)
     if not r.inv_violations:
         ctx.note("model self-test failed")
+    # the copula coupling in two dimensions: corner probabilities conditioned on the fine cell telescope for any joint
+    # weights; the I-margin rule (the pinned code) only for factorising weights
+    ctx.design("CouplingNd", "CouplingNd_cell.cfg" if ctx.tier == "quick" else "CouplingNd_thorough.cfg",
+               constants="2-d lattice, half-widths x joint weight tables, levels 0..2, rule: cell", coverage=False)
+    ctx.design("CouplingNd", "CouplingNd_imargin_product.cfg", constants="I-margin rule on factorising weights (agrees with the cell rule)", coverage=False)
+    r = ctx.design("CouplingNd", "CouplingNd_pinned.cfg", constants="pinned: I-margin rule on non-factorising weights",
+                   expect_violations=("Telescoping",), coverage=False)
+    if not r.inv_violations:
+        ctx.note("model self-test failed: CouplingNd pinned")
     tf = ctx.trace_path("coupling")
     ctx.drive("coupling_run", [tf, ctx.tier, ctx.seed])
     ctx.validate("Trace_Coupling", "Trace_Coupling.cfg", tf)
     ctx.assumptions += [
         "atomic Levy measures on lattice grids: the coupling probabilities are ratios of integer masses; the coupling map is observed by sweeping the coupling uniform over a lattice",
-        "one-dimensional coupling (CouplingMarkovChain) only in this check; copula coupling and SDE coupling: see DESIGN.md",
+        "Levy-copula coupling: finite-variation atomic copula models on lattice grids (2-d, 3-d); the infinite-variation diffusion adjustment (nquad over masses) is not driven",
     ]
